@@ -402,7 +402,7 @@ def bind_helper(call: ast.Call, helper: ast.FunctionDef, is_method: bool, ctx: C
     """The helper's cleaned body with its parameters bound to the call's arguments and its locals renamed apart.
     -> list of statements, or None when the call cannot be matched to the signature (left alone: fails closed later)."""
     a = helper.args
-    if a.vararg or a.kwarg or a.kwonlyargs or a.posonlyargs:
+    if a.vararg or a.kwarg or a.posonlyargs:
         return None
     params = [x.arg for x in a.args]
     if is_method:
@@ -413,11 +413,16 @@ def bind_helper(call: ast.Call, helper: ast.FunctionDef, is_method: bool, ctx: C
     if len(call.args) > len(params) or any(isinstance(x, ast.Starred) for x in call.args):
         return None
     given = dict(zip(params, call.args))
+    kwonly = [x.arg for x in a.kwonlyargs]              # `def f(x, *, name)`: bound by keyword only
     for kw in call.keywords:
-        if kw.arg is None or kw.arg not in params or kw.arg in given:
+        if kw.arg is None or kw.arg not in params + kwonly or kw.arg in given:
             return None
         given[kw.arg] = kw.value
     defaults = dict(zip(params[len(params) - len(a.defaults):], a.defaults)) if a.defaults else {}
+    defaults.update({x.arg: d for x, d in zip(a.kwonlyargs, a.kw_defaults) if d is not None})
+    # binding order = evaluation order at the call: positional arguments, then keywords in the order written
+    order = {id(v): i for i, v in enumerate(list(call.args) + [k.value for k in call.keywords])}
+    params = sorted(params + kwonly, key=lambda p: order.get(id(given.get(p)), len(order)))
     for p in params:
         if p not in given:
             if p not in defaults:
@@ -455,7 +460,7 @@ def expr_helper_value(call: ast.Call, ctx: Ctx):
     if len(body) != 1 or not isinstance(body[0], ast.Return) or body[0].value is None:
         return None
     a = h[0].args
-    if a.vararg or a.kwarg or a.kwonlyargs or a.posonlyargs:
+    if a.vararg or a.kwarg or a.posonlyargs:
         return None
     params = [x.arg for x in a.args]
     exprs = {}
@@ -464,13 +469,21 @@ def expr_helper_value(call: ast.Call, ctx: Ctx):
             return None
         exprs[params[0]] = ast.Name(id="self", ctx=ast.Load())
         params = params[1:]
-    if len(call.args) != len(params) or call.keywords:
+    if len(call.args) > len(params) or any(isinstance(x, ast.Starred) for x in call.args):
         return None
-    exprs.update(zip(params, call.args))
+    given = dict(zip(params, call.args))
+    params = params + [x.arg for x in a.kwonlyargs]
+    for kw in call.keywords:
+        if kw.arg is None or kw.arg not in params or kw.arg in given:
+            return None
+        given[kw.arg] = kw.value
+    if set(given) != set(params):
+        return None                                   # defaults are not followed in expression position
+    exprs.update(given)
     if comp_names(body[0].value) & set(exprs):
         return None
     sure = uncond_loads(body[0].value)
-    if any(may_raise(arg, {"np", "xr"}) and p not in sure for p, arg in zip(params, call.args)):
+    if any(may_raise(arg, {"np", "xr"}) and p not in sure for p, arg in given.items()):
         return None                                   # the argument's evaluation would become conditional
     val = _Rename({}, exprs).visit(copy.deepcopy(body[0].value))
     return inline_exprs(val, ctx.child(ctx.ret, h[0].name))
@@ -499,20 +512,27 @@ def has_escape(st) -> bool:
 
 
 def match_test(subject, pat):
-    """A `case` pattern over a cheap subject -> test expression (None = irrefutable)"""
+    """A `case` pattern over a cheap subject -> (test expression (None = irrefutable), [names bound to the subject])
+    A capture (`case x:`, `case Cls() as x:`) binds the subject itself, i.e. it is a local alias of the subject."""
     if isinstance(pat, ast.MatchValue):
-        return ast.Compare(left=copy.deepcopy(subject), ops=[ast.Eq()], comparators=[pat.value])
+        return ast.Compare(left=copy.deepcopy(subject), ops=[ast.Eq()], comparators=[pat.value]), []
     if isinstance(pat, ast.MatchSingleton):
-        return ast.Compare(left=copy.deepcopy(subject), ops=[ast.Is()], comparators=[ast.Constant(value=pat.value)])
-    if isinstance(pat, ast.MatchAs) and pat.pattern is None and pat.name is None:
-        return None
+        return ast.Compare(left=copy.deepcopy(subject), ops=[ast.Is()], comparators=[ast.Constant(value=pat.value)]), []
+    if isinstance(pat, ast.MatchAs):
+        if pat.pattern is None:
+            return None, ([pat.name] if pat.name is not None else [])
+        t, binds = match_test(subject, pat.pattern)
+        return t, binds + [pat.name]
     if isinstance(pat, ast.MatchClass) and not pat.patterns and not pat.kwd_patterns:
-        return ast.Call(func=ast.Name(id="isinstance", ctx=ast.Load()), args=[copy.deepcopy(subject), pat.cls], keywords=[])
+        return ast.Call(func=ast.Name(id="isinstance", ctx=ast.Load()), args=[copy.deepcopy(subject), pat.cls],
+                        keywords=[]), []
     if isinstance(pat, ast.MatchOr):
         ts = [match_test(subject, p) for p in pat.patterns]
-        if any(t is None for t in ts):
-            return None
-        return ast.BoolOp(op=ast.Or(), values=ts)
+        if any(b for _, b in ts):
+            fail(pat, "captures inside an or-pattern are not accepted")
+        if any(t is None for t, _ in ts):
+            return None, []
+        return ast.BoolOp(op=ast.Or(), values=[t for t, _ in ts]), []
     fail(pat, "match pattern not accepted")
 
 
@@ -550,8 +570,10 @@ def build(stmts: list, k: Blk, ctx: Ctx) -> Blk:
         for case in reversed(st.cases):
             if case.guard is not None:
                 fail(st, "match guards are not accepted")
-            t = match_test(subj, case.pattern)
-            node = build(case.body, kk, ctx) if t is None else Blk([], ("if", t, build(case.body, kk, ctx), node))
+            t, binds = match_test(subj, case.pattern)
+            cbody = [ast.Assign(targets=[ast.Name(id=nm, ctx=ast.Store())], value=copy.deepcopy(subj))
+                     for nm in binds] + list(case.body)
+            node = build(cbody, kk, ctx) if t is None else Blk([], ("if", t, build(cbody, kk, ctx), node))
         return node
     if isinstance(st, (ast.For, ast.While, ast.Try, ast.With, ast.AsyncFor, ast.AsyncWith, ast.FunctionDef, ast.ClassDef)):
         if has_escape(st):
